@@ -10,21 +10,10 @@ import os, json, re, collections
 from vlib import *
 import vlib, machines, c15_race
 
-LOCKS_JSON = os.path.join(BUILD, 'c15_locks.json')
+import c15_gen
+from c15_gen import LOCKS_JSON
 
-
-def _locks2coq():
-    rc, out, _ = sh([tool('locks2coq'), '-root', REPO, '-out', os.path.join(GEN, 'Gen_Locks.v'), '-json', LOCKS_JSON])
-    if rc != 0:
-        # never leave a stale skeleton behind: the obligations must not be evaluated on old source
-        try:
-            os.remove(LOCKS_JSON)
-        except OSError:
-            pass
-    return ('locks2coq', rc == 0, out.strip())
-
-
-vlib.EXTRA_TRANSLATORS.append(_locks2coq)
+c15_gen.register()
 
 HARNESS_SRC = '/verif/harness/c15/c15_test.go'
 SYSFSGEN_SRC = '/verif/harness/common/sysfsgen.go'
